@@ -5,7 +5,7 @@ import subprocess
 import shutil
 
 from analysis import (Prov, Guards, fmt, fmt_short, walk, roots, short, comparison, find_calls, callee_matches,
-                      must_pass, path_to, describe_path)
+                      must_pass, path_to, describe_path, option_edges)
 from facts import AnchorError, strip_closure
 from harness import Rule, VERIF, REPO, guarded
 
@@ -313,6 +313,43 @@ def r3(ctx):
     return rule
 
 
+def r4(ctx):
+    """'leads to exactly one TALKRESP': the application's answer travels Service -> Handler::send_response -> wire whenever the peer has a session"""
+    facts = ctx.facts
+    rule = Rule("C20.R4", "the handler puts the application's response on the wire whenever a session with the peer exists (no further condition on the session)",
+                floor=3, engine="A-dom + A-prov")
+    H = "crate::handler::Handler::"
+    b = facts.coroutine_of(H + "send_response")
+    rule.analysed(b)
+    p = Prov(b, facts)
+    g = Guards(b, p, facts)
+    is_get = lambda e: e[0] == "call" and re.search(r"LruTimeCache(::<.*>)?::(get_mut|get)$", short(e[1])) and "sessions" in fmt_short(e)
+    some_e, none_e = option_edges(g, is_get)
+    # no other condition is put on the session between the lookup and the test (Option::filter, take_if, and_then ..)
+    wrapped = []
+    for bi, t, e in g.switches():
+        inner = e
+        while inner[0] in ("un", "discr") or (inner[0] == "call" and re.search(r"Option::is_(some|none)$", short(inner[1]))):
+            inner = inner[2] if inner[0] == "un" else (inner[1] if inner[0] == "discr" else inner[2][0])
+        if not is_get(inner) and inner[0] == "call" and re.search(r"option::Option(::<.*>)?::\w+$|^Option::\w+$", short(inner[1])) and any(is_get(x) for x in walk(inner)):
+            wrapped.append(fmt_short(inner)[:100])
+    rule.check(bool(some_e) and not wrapped, "send_response tests the session lookup itself", "send_response|session-test",
+               "Handler::send_response puts a further condition on the session it found (%s): a response the application gave for a delivered request is dropped although "
+               "a session with the peer exists, and the peer gets no TALKRESP" % "; ".join(wrapped), loc=b.loc(b.line))
+    enc = [bi for bi, t in b.calls() if (t.callee() or "").endswith("Session::encrypt_message")]
+    snd = [bi for bi, t in b.calls() if (t.callee() or "") == H + "send"]
+    rule.check(bool(enc) and bool(snd) and all(must_pass(b, [x], via_blocks=enc) for x in snd), "what is sent is the response encrypted with that session", "send_response|encrypt",
+               "Handler::send_response sends without encrypting the response with the peer's session", loc=b.loc(b.line))
+    okk = bool(some_e) and bool(enc)
+    for sb, tgt in some_e:
+        rr = b.reachable(tgt, removed_blocks=enc)
+        if any(x in rr for x in b.return_blocks()):
+            okk = False
+    rule.check(okk, "with a session, every path encrypts the response", "send_response|skipped",
+               "Handler::send_response can return without encrypting / sending although a session was found", loc=b.loc(b.line))
+    return rule
+
+
 def run(ctx):
     G = lambda l, f, *a: guarded("C20." + l, f, ctx, *a)
-    return G("W1", r_types) + G("R1", r1) + G("R2", r2) + G("R3", r3)
+    return G("W1", r_types) + G("R1", r1) + G("R2", r2) + G("R3", r3) + G("R4", r4)
